@@ -29,7 +29,7 @@ func profileMain(args []string) int {
 		return 2
 	}
 	debug.SetGCPercent(800)
-	proc, _ := smt.StartZ3(20000)
+	proc, _ := smt.StartSolver(spec.Solver, 20000)
 	defer proc.Close()
 	var run *RunSpec
 	for i := range spec.Runs {
